@@ -196,6 +196,9 @@ def check_case(case):
         with open(d / f"domain-agent{i}.pddl", "w") as fh:
             fh.write(domain_text(f))
     for i, p in enumerate(parts):
+        if case.get("dup_goal") and p["goal_lits"]:
+            # a goal fact written twice in one agent's own file: the combination still lists it once
+            p = dict(p, goal_lits=list(p["goal_lits"]) + [list(p["goal_lits"][0])])
         with open(d / f"problem-agent{i}.pddl", "w") as fh:
             fh.write(sexpr.flat(P.problem_tree(dom, p)))
     if case.get("decoys"):
@@ -364,7 +367,7 @@ def gen(ch, tier):
         ag["types"] = sorted({t for _, t in part["objects"] if t != "object"})
         ag["extra"] = sorted(set(ag["extra"]))
         ag["consts"] = sorted(set(ag["consts"]))
-    return {"dom": dom, "problem": pr, "agents": agents, "assignment": assignment, "dummy": ch.flag(0.3), "reuse": ch.flag(0.5), "decoys": ch.flag(0.5),
+    return {"dom": dom, "problem": pr, "agents": agents, "assignment": assignment, "dummy": ch.flag(0.3), "reuse": ch.flag(0.5), "decoys": ch.flag(0.5), "dup_goal": ch.flag(0.3),
             "perm": [ch.int(0, 23)]}
 
 
